@@ -9,6 +9,7 @@ TRUST = ('trusted: library models (num-bigint as wide bit-vectors, Vec/slice/ite
 TECH = 'symbolic execution of rustc MIR (regenerated from /repo each run) + SMT (z3), bounded; counterexamples replayed natively'
 
 CLAIMS = {
+ 'C07': ('bounded symbolic execution of the real convert_from_clvm_rs / convert_to_clvm_rs / both sha256tree functions / SExp::equal_to / == / impl Hash MIR: round trip and three-way hash agreement for every atom of 0..4 (thorough 0..9) bytes and every tree of <=3 (4) leaves with atoms of 0..2 (3) bytes in both integer modes; equality and Hash against encoding equality for every pair of atoms of 0..2 (3) bytes in every pair of spellings (fixed mode). SHA-256 is an injective uninterpreted function of its preimage', 'DESIGN.md §4 C07'),
  'C06': ('bounded differential symbolic execution: the real stepping evaluator (run, run_step, combine, choose_path, flatten_signed_int, convert_to_clvm_rs) against clvmr 0.16.2 traverse_path executed from clvmr\'s own MIR, for a program that is one atom in every spelling (Integer of 136 bits, Atom/QuotedString of 0..3 (thorough 0..6) arbitrary bytes, Nil) in every environment shape of <=3 (5) leaves. Partial: path lookup and the core-operator step function, not the operators delegated to clvmr', 'DESIGN.md §4 C06'),
  'C04': ('bounded symbolic execution of the real path_optimizer / match_sexp / NodePath / compose_paths / casts MIR: every (OP ATOM) with OP any byte and ATOM any byte string of 0..9 (thorough 0..17) bytes is decided by z3. Partial: a lemma about the path-arithmetic mechanism the property names, not the whole optimiser (rule driver, constant folding are outside)', 'DESIGN.md §4 C04'),
  'C08': ('bounded symbolic execution of the real codec MIR: int_from_bytes for every 0..9-byte string; sexp_from_stream for every input of <=4 (thorough <=6) bytes against a reference decoder of the format; sexp_to_stream + decode round trip for all trees <=3 (4) leaves with atoms of 0..2 (3) arbitrary bytes and 63/64-byte atoms; atom_size_blob for a symbolic 64-bit atom length (all five prefix classes and the error bound)', 'DESIGN.md §4 C08'),
